@@ -298,6 +298,9 @@ type Spec struct {
 	// MarkAccepted emits a "run:<combinator>" event on the fork where a combinator that may refuse its
 	// argument accepts it (the refusing fork always carries "drop:<combinator>").
 	MarkAccepted bool
+	// NoCombs: closures handed to combinators are not run as part of the path (rules about what a
+	// function does before it returns: lock balance).
+	NoCombs bool
 }
 
 // Tracer enumerates paths of one root.
@@ -1007,7 +1010,7 @@ func (t *Tracer) execCall(fr *Frame, c ssa.CallInstruction, st State, k func(Sta
 	callee := calleeFunc(com)
 	args := callArgs(com)
 	if callee != nil {
-		if tbl := t.combs(callee); tbl != nil {
+		if tbl := t.combs(callee); tbl != nil && !t.Spec.NoCombs {
 			for _, f := range t.P.MayWrite(c) {
 				st = st.bump(f)
 			}
